@@ -24,6 +24,25 @@ pub fn parse_statement_list(
     Ok(body_ir)
 }
 
+/// Type check the condition of an if or a loop - which must be usable as a boolean
+fn parse_condition(
+    cond: &Located<ast::Expression>,
+    context: &mut Context,
+) -> TyperResult<ir::Expression> {
+    let (cond_ir, cond_ety) = parse_expr(cond, context)?;
+
+    let bool_ety = context
+        .module
+        .type_registry
+        .register_type(ir::TypeLayer::Scalar(ir::ScalarType::Bool))
+        .to_rvalue();
+    if ImplicitConversion::find(cond_ety, bool_ety, &mut context.module).is_err() {
+        return Err(TyperError::NumericTypeExpected(cond.get_location()));
+    }
+
+    Ok(cond_ir)
+}
+
 /// Parse the statement inside a block caused by an statement (if, for, while, etc),
 /// with the intention of merging the scope created by the outer statement and the
 /// scope of it's inner statement. This is to force a scope on single statements
@@ -119,7 +138,7 @@ fn parse_statement(ast: &ast::Statement, context: &mut Context) -> TyperResult<V
         }
         ast::StatementKind::If(ref cond, ref statement) => {
             context.push_scope();
-            let cond_ir = parse_expr(cond, context)?.0;
+            let cond_ir = parse_condition(cond, context)?;
             let scope_block = parse_scopeblock(statement, context)?;
             Ok(Vec::from([ir::Statement {
                 kind: ir::StatementKind::If(cond_ir, scope_block),
@@ -129,7 +148,7 @@ fn parse_statement(ast: &ast::Statement, context: &mut Context) -> TyperResult<V
         }
         ast::StatementKind::IfElse(ref cond, ref true_statement, ref false_statement) => {
             context.push_scope();
-            let cond_ir = parse_expr(cond, context)?.0;
+            let cond_ir = parse_condition(cond, context)?;
             let scope_block = parse_scopeblock(true_statement, context)?;
             context.push_scope();
             let else_block = parse_scopeblock(false_statement, context)?;
@@ -143,7 +162,7 @@ fn parse_statement(ast: &ast::Statement, context: &mut Context) -> TyperResult<V
             context.push_scope();
             let init_ir = parse_for_init(init, context)?;
             let cond_ir = match cond {
-                Some(cond) => Some(parse_expr(cond, context)?.0),
+                Some(cond) => Some(parse_condition(cond, context)?),
                 None => None,
             };
             let iter_ir = match iter {
@@ -159,7 +178,7 @@ fn parse_statement(ast: &ast::Statement, context: &mut Context) -> TyperResult<V
         }
         ast::StatementKind::While(ref cond, ref statement) => {
             context.push_scope();
-            let cond_ir = parse_expr(cond, context)?.0;
+            let cond_ir = parse_condition(cond, context)?;
             let scope_block = parse_scopeblock(statement, context)?;
             Ok(Vec::from([ir::Statement {
                 kind: ir::StatementKind::While(cond_ir, scope_block),
@@ -170,7 +189,7 @@ fn parse_statement(ast: &ast::Statement, context: &mut Context) -> TyperResult<V
         ast::StatementKind::DoWhile(ref statement, ref cond) => {
             context.push_scope();
             let scope_block = parse_scopeblock(statement, context)?;
-            let cond_ir = parse_expr(cond, context)?.0;
+            let cond_ir = parse_condition(cond, context)?;
             Ok(Vec::from([ir::Statement {
                 kind: ir::StatementKind::DoWhile(scope_block, cond_ir),
                 location: ast.location,
@@ -179,7 +198,25 @@ fn parse_statement(ast: &ast::Statement, context: &mut Context) -> TyperResult<V
         }
         ast::StatementKind::Switch(ref cond, ref statement) => {
             context.push_scope();
-            let cond_ir = parse_expr(cond, context)?.0;
+            let (cond_ir, cond_ety) = parse_expr(cond, context)?;
+
+            // The value to switch on has to be an integer
+            let cond_ty = context.module.type_registry.remove_modifier(cond_ety.0);
+            let is_integer = match context.module.type_registry.get_type_layer(cond_ty) {
+                ir::TypeLayer::Scalar(scalar) => matches!(
+                    scalar,
+                    ir::ScalarType::Bool
+                        | ir::ScalarType::IntLiteral
+                        | ir::ScalarType::Int32
+                        | ir::ScalarType::UInt32
+                ),
+                ir::TypeLayer::Enum(_) => true,
+                _ => false,
+            };
+            if !is_integer {
+                return Err(TyperError::IntegerTypeExpected(cond.get_location()));
+            }
+
             let scope_block = parse_scopeblock(statement, context)?;
             Ok(Vec::from([ir::Statement {
                 kind: ir::StatementKind::Switch(cond_ir, scope_block),
